@@ -45,7 +45,8 @@ pub fn seg_alphabet(f: Family, level: u8) -> Vec<Vec<u8>> {
 		v.push("é");
 		if level >= 1 {
 			// "¯" / "®": last UTF-8 byte is the high-bit twin of '/' / '.'
-			v.extend(["%C3%A9", "¯", "®"]);
+			// "\u{12F}" / "\u{12E}": code points whose LOW BYTE is '/' / '.' (a `char as u8` cast)
+			v.extend(["%C3%A9", "¯", "®", "\u{12F}", "\u{12E}"]);
 		}
 		if level >= 2 {
 			v.extend(["\u{20AC}", "\u{1F600}"]);
